@@ -19,9 +19,9 @@ def crc_table():
 
 
 def run(prog, chk):
-    encode_table(prog, chk)
-    crc_value_table(prog, chk)
-    encoder_table(prog, chk)
+    chk.defer(encode_table, prog, chk)
+    chk.defer(crc_value_table, prog, chk)
+    chk.defer(encoder_table, prog, chk)
     chk.explanation = (
         "(R5) the base-32 encode table equals the RFC 4648 alphabet; the CRC table of crc32.c equals the table generated from polynomial "
         "0xEDB88320. (R6) one iteration of the decoder loop of KSI_base32Decode is evaluated for one representative of every character "
